@@ -89,6 +89,20 @@ func specCfg(kind string, p lz.Parser) map[string]any {
 	}
 }
 
+// satOff saturates a probe offset for the recording (TLC integers are 32
+// bit); offsets that far away are outside every retained range on either
+// side, and saturation keeps them there.
+func satOff(off int64) int64 {
+	const lim = 1 << 30
+	if off > lim {
+		return lim
+	}
+	if off < -lim {
+		return -lim
+	}
+	return off
+}
+
 func satInt(i int) int64 {
 	if i > 1<<29 {
 		return 1 << 29
@@ -206,10 +220,15 @@ var junkLits = []byte{0xde, 0xad, 0xbe, 0xef}
 // pdrv drives one parser and keeps the counters needed to place probes
 // (accepted and discarded bytes as reported by the parser itself).
 type pdrv struct {
-	p    lz.Parser
-	rec  *Rec
+	// blk is reused for every Parse call when reuse is set (the usual way to
+	// call a parser); otherwise every call gets a fresh junk-filled block
+	blk   lz.Block
+	reuse bool
+	p     lz.Parser
+	rec   *Rec
 	acc  int64 // bytes accepted since Reset
 	disc int64 // bytes discarded since Reset
+	w    int64 // bytes parsed or skipped since Reset (as reported by the parser)
 	run  string
 }
 
@@ -228,7 +247,7 @@ func (d *pdrv) probeOff(op map[string]any) int64 {
 	if str(op["rel"]) == "end" {
 		base = d.acc
 	}
-	return base + num(op["d"])
+	return base + num(op["d"]) + num(op["far"])<<32
 }
 
 // do executes one script operation; it reports false if the script must stop.
@@ -260,19 +279,42 @@ func (d *pdrv) do(op map[string]any) bool {
 		rec.Emit(d.ev(Event{"op": name, "calls": r.log, "n": n, "err": pErr(err)}))
 	case "parse":
 		flags := int(num(op["flags"]))
-		blk := lz.Block{Sequences: append([]lz.Seq{}, junkSeqs...), Literals: append([]byte{}, junkLits...)}
+		fresh := lz.Block{Sequences: append([]lz.Seq{}, junkSeqs...), Literals: append([]byte{}, junkLits...)}
+		blk := &fresh
+		if d.reuse || boolean(op["reuse"]) {
+			if d.blk.Sequences == nil {
+				d.blk = fresh
+			}
+			blk = &d.blk
+			// an upper layer may use Aux of the sequences it was given
+			for i := range blk.Sequences {
+				blk.Sequences[i].Aux = 7
+			}
+		}
 		var n int
 		var err error
-		if !rec.Call(name, func() { n, err = p.Parse(&blk, flags) }) {
+		if !rec.Call(name, func() { n, err = p.Parse(blk, flags) }) {
 			return false
 		}
-		rec.Emit(d.ev(Event{"op": name, "flags": flags, "n": n, "err": pErr(err),
-			"seqs": seqsJSON(blk.Sequences), "lits": B(blk.Literals)}))
+		e := Event{"op": name, "flags": flags, "n": n, "err": pErr(err),
+			"seqs": seqsJSON(blk.Sequences), "lits": B(blk.Literals)}
+		if boolean(op["witness"]) && err == nil && n > 0 {
+			if alt := d.greedyWitness(n); alt != nil {
+				e["alt"] = alt
+			}
+		}
+		if err == nil && n > 0 {
+			d.w += int64(n)
+		}
+		rec.Emit(d.ev(e))
 	case "parsenil":
 		var n int
 		var err error
 		if !rec.Call(name, func() { n, err = p.Parse(nil, int(num(op["flags"]))) }) {
 			return false
+		}
+		if err == nil && n > 0 {
+			d.w += int64(n)
 		}
 		rec.Emit(d.ev(Event{"op": name, "n": n, "err": pErr(err)}))
 	case "shrink":
@@ -300,7 +342,7 @@ func (d *pdrv) do(op map[string]any) bool {
 			return false
 		}
 		if err == nil {
-			d.acc, d.disc = int64(len(b)), 0
+			d.acc, d.disc, d.w = int64(len(b)), 0, 0
 		}
 		rec.Emit(d.ev(Event{"op": name, "data": B(b), "cap": extra, "err": pErr(err)}))
 	case "readat":
@@ -315,7 +357,7 @@ func (d *pdrv) do(op map[string]any) bool {
 		if n < 0 || n > lenp {
 			n = 0
 		}
-		rec.Emit(d.ev(Event{"op": name, "off": off, "lenp": lenp, "n": n, "err": pErr(err), "bytes": B(q[:n])}))
+		rec.Emit(d.ev(Event{"op": name, "off": satOff(off), "lenp": lenp, "n": n, "err": pErr(err), "bytes": B(q[:n])}))
 	case "byteat":
 		off := d.probeOff(op)
 		var c byte
@@ -323,7 +365,7 @@ func (d *pdrv) do(op map[string]any) bool {
 		if !rec.Call(name, func() { c, err = p.ByteAt(off) }) {
 			return false
 		}
-		rec.Emit(d.ev(Event{"op": name, "off": off, "c": int(c), "err": pErr(err)}))
+		rec.Emit(d.ev(Event{"op": name, "off": satOff(off), "c": int(c), "err": pErr(err)}))
 	case "pump":
 		return d.pump(op)
 	default:
@@ -344,6 +386,9 @@ func (d *pdrv) pump(op map[string]any) bool {
 	if chunk <= 0 {
 		chunk = len(data) + 1
 	}
+	if boolean(op["reuse"]) {
+		d.reuse = true
+	}
 	mode := str(op["mode"]) // "write" | "readfrom"
 	rmax := int(num(op["rmax"]))
 	pNTL := int(num(op["pntl"]))   // percent of Parse calls with NoTrailingLiterals
@@ -351,6 +396,7 @@ func (d *pdrv) pump(op map[string]any) bool {
 	pEarly := int(num(op["pearly"])) // percent chance to parse before the buffer is full
 	pProbe := int(num(op["pprobe"]))
 	pShrink := int(num(op["pshrink"])) // percent chance of an extra Shrink
+	pStop := int(num(op["pstop"]))     // percent chance per block to stop draining early
 	rng := newLCG(uint64(num(op["seed"])))
 	budget := 6*len(data) + 64
 	lastEv := func() Event { return d.rec.last }
@@ -361,10 +407,14 @@ func (d *pdrv) pump(op map[string]any) bool {
 				rel = "end"
 			}
 			dd := int(rng.n(4)) - 2
-			if rng.pct(50) {
-				return d.do(map[string]any{"op": "byteat", "rel": rel, "d": dd})
+			far := 0
+			if rng.pct(15) {
+				far = []int{-1, 1, 2, -2}[rng.n(4)]
 			}
-			return d.do(map[string]any{"op": "readat", "rel": rel, "d": dd, "lenp": int(rng.n(5))})
+			if rng.pct(50) {
+				return d.do(map[string]any{"op": "byteat", "rel": rel, "d": dd, "far": far})
+			}
+			return d.do(map[string]any{"op": "readat", "rel": rel, "d": dd, "lenp": int(rng.n(5)), "far": far})
 		}
 		return true
 	}
@@ -372,8 +422,11 @@ func (d *pdrv) pump(op map[string]any) bool {
 		for budget > 0 {
 			budget--
 			var o map[string]any
+			if pStop > 0 && rng.pct(pStop) {
+				return true // leave the rest unparsed: more data arrives first
+			}
 			if rng.pct(pNil) {
-				o = map[string]any{"op": "parsenil"}
+				o = map[string]any{"op": "parsenil", "flags": int(rng.n(2))}
 			} else {
 				fl := 0
 				if rng.pct(pNTL) {
@@ -448,6 +501,69 @@ func (d *pdrv) pump(op map[string]any) bool {
 		}
 	}
 	return drain()
+}
+
+// greedyWitness proposes another parse of the block of n bytes that starts
+// at the parse position before the call (d.w): at every position the longest
+// match with the nearest source inside window and retained buffer, if it
+// reaches MinMatchLen, else a literal. It is only a proposal: TLC checks that
+// it is a valid parse before it uses its cost as an upper bound (C11). The
+// buffer content is read back through ReadAt.
+func (d *pdrv) greedyWitness(n int) map[string]any {
+	bc := d.p.BufferConfig()
+	f := cfgFields(d.p.ParserConfig())
+	mm, xm := int(fieldInt(f, "MinMatchLen")), int(fieldInt(f, "MaxMatchLen"))
+	if mm < 2 || xm < mm {
+		return nil
+	}
+	buf := make([]byte, d.acc-d.disc)
+	if k, _ := d.p.ReadAt(buf, d.disc); k != len(buf) {
+		return nil
+	}
+	w0 := int(d.w - d.disc)
+	end := w0 + n
+	if w0 < 0 || end > len(buf) {
+		return nil
+	}
+	var seqs [][]int64
+	var lits []int
+	lit := 0
+	for s := w0; s < end; {
+		lim := end - s
+		if lim > xm {
+			lim = xm
+		}
+		bl, bj := 0, -1
+		lo := s - bc.WindowSize
+		if lo < 0 {
+			lo = 0
+		}
+		for j := s - 1; j >= lo && bl < lim; j-- {
+			l := 0
+			for l < lim && buf[j+l] == buf[s+l] {
+				l++
+			}
+			if l > bl {
+				bl, bj = l, j
+			}
+		}
+		if bl >= mm {
+			seqs = append(seqs, []int64{int64(lit), int64(bl), int64(s - bj), 0})
+			lit = 0
+			s += bl
+		} else {
+			lits = append(lits, int(buf[s]))
+			lit++
+			s++
+		}
+	}
+	if seqs == nil {
+		seqs = [][]int64{}
+	}
+	if lits == nil {
+		lits = []int{}
+	}
+	return map[string]any{"seqs": seqs, "lits": lits}
 }
 
 // lcg is a small deterministic PRNG for in-driver decisions.
